@@ -85,7 +85,14 @@ def _gen_body(r: Rng, text: bool):
 
 def gen(rng: Rng, tier: str, index: int) -> dict:
     r = rng.child('workload')
-    kind = r.wpick([('single', 0.62), ('reuse', 0.18), ('two', 0.2)])
+    kind = r.wpick([('single', 0.55), ('reuse', 0.17), ('two', 0.18), ('bsp', 0.10)])
+    if kind == 'bsp':
+        from machines import bsp_lossless
+        corpus = bsp_lossless._corpus_index()
+        small = [m for m in corpus if m['bytes'] < 9000] or corpus
+        return {'kind': 'bsp', 'mode': 'bsp', 'corpus': r.pick(small)['file'] if small else None, 'views': r.sample(['ents', 'cubemaps', 'planes', 'pakfile', 'textures', 'vertexes', 'visibility'], r.randrange(0, 3)),
+                'dest_state': 'present', 'stale': r.pick([0, 0, 1]), 'linesep': '\n', 'blksize': r.pick([512, 4096, 8192]), 'sessions': [], 'plans': None,
+                'plan_seed': r.randrange(1 << 30), 'save_as': r.chance(0.3)}
     text = r.chance(0.3)
     case = {
         'kind': kind, 'mode': 'text' if text else 'bytes',
@@ -255,6 +262,8 @@ def run(case: dict) -> Outcome:
     out = Outcome()
     if case['kind'] == 'two':
         return _run_two(case, out)
+    if case['kind'] == 'bsp':
+        return _run_bsp(case, out)
     mode = case['mode']
     base = _setup_fs(case, {})
     before_snapshot = base.snapshot()
@@ -348,6 +357,110 @@ def _describe(data, allowed):
         if a and data and a.startswith(data):
             return f'a {len(data)}-byte prefix of {name} ({len(a)} bytes)'
     return f'{len(data)} bytes matching neither OLD nor NEW: {bytes(data[:24])!r}...'
+
+
+# ------------------------------------------------------------------ BSP.save on top of the atomic writer
+def _bsp_setup(case, plan, blob):
+    fs = SimFS(plan=plan)
+    fs.blksize = case['blksize']
+    fs.put_dir(D)
+    fs.put(D + '/other.dat', b'UNRELATED' * 50)
+    for i in range(1, case['stale'] + 1):
+        fs.put(D + f'/tmp_{i}', f'stale{i}'.encode() * 10)
+    fs.put(D + '/a.bsp', blob)
+    if case.get('save_as'):
+        fs.put(D + '/b.bsp', b'OLD-B:' + bytes(range(256)) * 4)
+    return fs
+
+
+def _bsp_session(case, fs):
+    from srctools.bsp import BSP
+    b = BSP(D + '/a.bsp')
+    for v in case['views']:
+        getattr(b, v)
+    start = fs.op
+    b.map_revision += 1          # make NEW differ from OLD
+    if case.get('save_as'):
+        b.save(D + '/b.bsp')
+    else:
+        b.save()
+    return start
+
+
+def _run_bsp(case, out: Outcome):
+    import os
+    from sim.core import VERIF
+    if not case.get('corpus'):
+        return out
+    with open(os.path.join(VERIF, 'corpus', 'bsp', case['corpus']), 'rb') as f:
+        blob = f.read()
+    dest = D + ('/b.bsp' if case.get('save_as') else '/a.bsp')
+    ref = _bsp_setup(case, {}, blob)
+    old = ref.get(dest)
+    tmp_before = _tmp_names(ref)
+    with ref:
+        try:
+            start = _bsp_session(case, ref)
+        except Exception as e:
+            out.violate('reference-failed', 'bsp|' + type(e).__name__, f'fault-free BSP.save raised {e!r}')
+            return out
+    new = ref.get(dest)
+    save_ops = [op for op in ref.log if op[0] >= start]
+    # the destination is only ever touched by the final replace
+    for (k, task, kind, path, size, outcome) in save_ops:
+        if kind in ('open_create', 'write', 'truncate', 'unlink') and path == dest:
+            out.violate('dest-written-directly', f'bsp|{kind}', f'BSP.save did {kind} on the destination {dest} itself (operation {k})')
+    if _tmp_names(ref) != tmp_before:
+        out.violate('temp-left-after-success', 'bsp|fault-free', f'temp files {_tmp_names(ref)} after a fault-free BSP.save')
+    plans = case.get('plans')
+    if plans is None:
+        r = Rng(case['plan_seed'])
+        allp = _fault_plans(case, save_ops)
+        plans = [allp[i] for i in sorted(r.sample(range(len(allp)), min(40, len(allp))))]
+    out.event('ref', len(save_ops), len(new or b''))
+    for plan in plans:
+        fs = _bsp_setup(case, plan, blob)
+        killed = False
+        err = None
+        with fs:
+            try:
+                _bsp_session(case, fs)
+            except SimKill:
+                killed = True
+            except OSError as e:
+                err = e
+            except Exception as e:
+                err = e
+                out.violate('unexpected-exception', f'bsp|{type(e).__name__}', f'BSP.save under plan {plan} raised {e!r}')
+        out.steps += 1
+        out.stats['fault_plans_executed'] += 1
+        out.stats['bsp_save_plans'] += 1
+        fired = list(fs.fired)
+        for (k, kind, what) in fired:
+            out.stats['fired_' + what] += 1
+            out.states.add(f'bsp|{kind}|{what}|{"killed" if killed else "error" if err else "ok"}')
+        if fired:
+            out.nontrivial = True
+        got = fs.get(dest)
+        pk = _plan_kind(plan)
+        opk = fired[0][1] if fired else 'none'
+        out.event(plan, killed, type(err).__name__ if err else None, None if got is None else len(got), _tmp_names(fs))
+        if fs.get(D + '/other.dat') != b'UNRELATED' * 50 or (case.get('save_as') and fs.get(D + '/a.bsp') != blob):
+            out.violate('bystander-changed', f'bsp|{opk}|{pk}', f'another file in the directory changed under plan {plan}')
+        if got not in (old, new):
+            out.violate('mixture-after-crash' if killed else 'dest-changed-after-failure', f'bsp|{opk}|{pk}',
+                        f'BSP.save under plan {plan}: destination holds {_describe(got, [old, new])}')
+        elif not killed and err is not None and got != old:
+            out.violate('dest-changed-after-failure', f'bsp|{opk}|{pk}', f'BSP.save failed with {err!r} but the destination changed')
+        elif not killed and err is None and got != new:
+            out.violate('success-wrong', f'bsp|{opk}|{pk}', f'BSP.save returned normally under plan {plan} but the destination is not the new file')
+        if not killed and _tmp_names(fs) != tmp_before:
+            cleanup_faulted = any(kind == 'unlink' and what not in ('crash-before', 'crash-after') for (k, kind, what) in fired)
+            if not cleanup_faulted:
+                out.violate('temp-left-after-failure' if err is not None else 'temp-left-after-success', f'bsp|{opk}|{pk}',
+                            f'BSP.save under plan {plan}: temp files now {_tmp_names(fs)}, before {tmp_before}')
+    out.sample = {'workload': {k: v for k, v in case.items() if k != 'plans'}, 'save_ops': len(save_ops), 'plans_sampled': len(plans)}
+    return out
 
 
 # ------------------------------------------------------------------ two writers
@@ -501,6 +614,12 @@ SHRINK_LISTS = ('plans',)
 
 
 def simplify(case: dict):
+    if case['kind'] == 'bsp':
+        if case['views']:
+            yield dict(case, views=[])
+        if case['stale']:
+            yield dict(case, stale=0)
+        return
     if case.get('plans') is None and case['kind'] != 'two':
         # make the plan list explicit so that it can be reduced
         try:
